@@ -58,9 +58,13 @@ def key(tok):
 def oracle(c, io, mo):
     if io is None:
         return 'no output'
+    if io == 'ABORT' and mo and 'FUEL' in mo:
+        return None       # unbounded partial recursion (e.g. a partial-block body including @partial-block): excluded by the property
     if io in ('ABORT', 'TIMEOUT'):
         return f'rendering makes the process {io}'
     toks = io.split(' ')
+    if toks[c['npre'] - 1] == 'PANIC':
+        return None       # the template does not even compile (a compile-time panic is property C04's finding F1)
     if 'PANIC' in toks:
         return 'render (or compile) panicked'
     obs = toks[c['npre']:]
